@@ -25,6 +25,14 @@ Theorem save_oracle_free : forall o1 o2 r, valid o1 -> valid o2 -> wf_net r ->
 Proof. exact save_oracle_free_lemma. Qed.
 Print Assumptions save_oracle_free.
 
+(* The scalar content of every emitted record is a function of the entity alone ([record_of_bus],
+   [record_of_nif], [record_of_msg], [record_of_sig] take no oracle); listed in emission order it is
+   oracle-free like the skeletons, so byte identity rests only on the encoders being functions. *)
+Theorem records_oracle_free : forall o1 o2 r, valid o1 -> valid o2 -> wf_net r ->
+  records_raw o1 r = records_raw o2 r.
+Proof. exact records_oracle_free_lemma. Qed.
+Print Assumptions records_oracle_free.
+
 (* The order in which an equal model was built (the internal order of every map-like field,
    at every level, entity ids being part of the model) cannot be observed either. *)
 Theorem build_order_free : forall o1 o2 r1 r2, valid o1 -> valid o2 -> wf_net r1 -> net_equiv r1 r2 ->
